@@ -40,7 +40,7 @@ _pixman_compute_composite_region32 (pixman_region32_t *region, pixman_image_t *s
                                     int32_t sx, int32_t sy, int32_t mx, int32_t my, int32_t dx, int32_t dy, int32_t w, int32_t h)
 {
     vd_reg_calls++;
-    vd_reg_args_ok = src == &vd_src && mask == (pixman_image_t *) 0 && dest == &vd_dest &&
+    vd_reg_args_ok = src == vd_src_p && mask == (pixman_image_t *) 0 && dest == vd_dest_p &&
                      sx == vd_want.sx && sy == vd_want.sy && dx == 0 && dy == 0 && w == vd_want.dw && h == vd_want.dh;
     (void) mx; (void) my;
     if (!vd_reg_ret)
@@ -80,6 +80,33 @@ _pixman_compute_composite_region32 (pixman_region32_t *region, pixman_image_t *s
     sbox[j].x1 = in_bx1_##j; sbox[j].y1 = in_by1_##j; sbox[j].x2 = in_bx2_##j; sbox[j].y2 = in_by2_##j
 #endif
 
+/* the request, for vd_check_call */
+static struct { pixman_op_t op; int32_t sx, sy, dx, dy; pixman_format_code_t src_fmt, dest_fmt; uint32_t src_flags, dest_flags; } rq;
+static int ok_rect = 1, ok_clip = 1, ok_mask = 1, ok_src = 1, ok_img = 1, ok_cover = 1, ok_lookup = 1, ok_flags = 1, ok_routine = 1;
+
+static void vd_check_call (const vd_call_t *r, const vd_expect *e)
+{
+    const pixman_composite_info_t *in = &r->info;
+    const pixman_image_t *gi = e->g->image;
+    const vd_lk_t *lk = VD_LK (r->id);
+    if (!vd_rect_ok (r, e)) ok_rect = 0;
+    if (!vd_rect_inside_clip (r, e)) ok_clip = 0;
+    if (!(in->mask_x == e->d.x1 - e->gx && in->mask_y == e->d.y1 - e->gy)) ok_mask = 0;
+    if (!(in->src_x == rq.sx + (e->d.x1 - rq.dx) && in->src_y == rq.sy + (e->d.y1 - rq.dy))) ok_src = 0;
+    if (!(in->op == rq.op && in->src_image == vd_src_p && in->mask_image == gi && in->dest_image == vd_dest_p)) ok_img = 0;
+    if (!vd_cover_true (r, e, 1)) ok_cover = 0;
+    if (!vd_routine_from_lookup (r)) ok_routine = 0;
+    else if (!(lk->top == VD_TOP && lk->op == rq.op &&
+               lk->sf == rq.src_fmt && lk->sfl == rq.src_flags &&
+               lk->mf == gi->common.extended_format_code && lk->mfl == (gi->common.flags | VD_COVER) &&
+               lk->df == rq.dest_fmt && lk->dfl == rq.dest_flags)) ok_lookup = 0;
+    /* flags handed to the routine: those of the images; on the glyph nothing but the (true) COVER promise may be added.
+     * (pixman_image_composite32 hands over glyph flags | COVER; the real code hands over the glyph flags without it:
+     * a weaker, still true description -- both are accepted, see the report) */
+    if (!(in->src_flags == rq.src_flags && in->dest_flags == rq.dest_flags &&
+          (in->mask_flags == gi->common.flags || in->mask_flags == (gi->common.flags | VD_COVER)))) ok_flags = 0;
+}
+
 void harness (void)
 {
     VH_IN (vh_u32, in_op);
@@ -88,20 +115,22 @@ void harness (void)
     VH_IN (vh_u32, in_src_fmt); VH_IN (vh_u32, in_src_flags); VH_IN (vh_u32, in_dest_fmt); VH_IN (vh_u32, in_dest_flags);
     VH_IN (vh_u8, in_n);
     vd_lbox sbox[VD_NBOX];
-    int nsbox, i, j, c;
-    int ok_rect = 1, ok_clip = 1, ok_mask = 1, ok_src = 1, ok_img = 1, ok_cover = 1, ok_lookup = 1, ok_flags = 1, ok_routine = 1;
+    int nsbox, i, j;
 
     VH_ASSUME (VD_INR (in_sx) && VD_INR (in_sy) && VD_INR (in_dx) && VD_INR (in_dy));
     VH_ASSUME (in_dw >= 0 && in_dw <= VD_R && in_dh >= 0 && in_dh <= VD_R);
     VH_ASSUME (in_n <= VD_NG);
 
     /* source: an opaque token with a format code and flags (any image type); destination: a BITS image */
-    vd_src.common.extended_format_code = (pixman_format_code_t) in_src_fmt; vd_src.common.flags = in_src_flags;
-    vd_src.common.ref_count = 1;
-    vd_dest.type = BITS; vd_dest.common.ref_count = 1;
-    vd_dest.bits.width = in_dw; vd_dest.bits.height = in_dh; vd_dest.bits.format = (pixman_format_code_t) in_dest_fmt;
-    vd_dest.common.extended_format_code = (pixman_format_code_t) in_dest_fmt; vd_dest.common.flags = in_dest_flags;
-    global_implementation = &vd_top;
+    vd_src_s.common.extended_format_code = (pixman_format_code_t) in_src_fmt; vd_src_s.common.flags = in_src_flags;
+    vd_src_s.common.ref_count = 1;
+    vd_dest_s.common.type = BITS; vd_dest_s.common.ref_count = 1;
+    vd_dest_s.width = in_dw; vd_dest_s.height = in_dh; vd_dest_s.format = (pixman_format_code_t) in_dest_fmt;
+    vd_dest_s.common.extended_format_code = (pixman_format_code_t) in_dest_fmt; vd_dest_s.common.flags = in_dest_flags;
+    global_implementation = VD_TOP;
+    rq.op = (pixman_op_t) in_op; rq.sx = in_sx; rq.sy = in_sy; rq.dx = in_dx; rq.dy = in_dy;
+    rq.src_fmt = (pixman_format_code_t) in_src_fmt; rq.dest_fmt = (pixman_format_code_t) in_dest_fmt;
+    rq.src_flags = in_src_flags; rq.dest_flags = in_dest_flags;
 
     VD_DECL_GLYPH (0);
     VD_DECL_GLYPH (1);
@@ -118,12 +147,12 @@ void harness (void)
         VH_IN (vh_i32, in_cx1); VH_IN (vh_i32, in_cy1); VH_IN (vh_i32, in_cx2); VH_IN (vh_i32, in_cy2);
         VH_ASSUME (in_have_clip <= 1);
         VH_ASSUME (VD_INR (in_cx1) && VD_INR (in_cy1) && VD_INR (in_cx2) && VD_INR (in_cy2) && in_cx1 < in_cx2 && in_cy1 < in_cy2);
-        vd_dest.common.have_clip_region = in_have_clip;
-        vd_dest.common.clip_region.extents.x1 = in_cx1; vd_dest.common.clip_region.extents.y1 = in_cy1;
-        vd_dest.common.clip_region.extents.x2 = in_cx2; vd_dest.common.clip_region.extents.y2 = in_cy2;
-        vd_dest.common.clip_region.data = (pixman_region32_data_t *) 0;
-        vd_dest.common.alpha_map = (bits_image_t *) 0;
-        vd_src.common.have_clip_region = FALSE; vd_src.common.alpha_map = (bits_image_t *) 0;
+        vd_dest_s.common.have_clip_region = in_have_clip;
+        vd_dest_s.common.clip_region.extents.x1 = in_cx1; vd_dest_s.common.clip_region.extents.y1 = in_cy1;
+        vd_dest_s.common.clip_region.extents.x2 = in_cx2; vd_dest_s.common.clip_region.extents.y2 = in_cy2;
+        vd_dest_s.common.clip_region.data = (pixman_region32_data_t *) 0;
+        vd_dest_s.common.alpha_map = (bits_image_t *) 0;
+        vd_src_s.common.have_clip_region = FALSE; vd_src_s.common.alpha_map = (bits_image_t *) 0;
         /* spec: the one clip box = clip rectangle ∩ image bounds */
         sbox[0].x1 = 0; sbox[0].y1 = 0; sbox[0].x2 = in_dw; sbox[0].y2 = in_dh;
         if (in_have_clip)
@@ -149,14 +178,14 @@ void harness (void)
     }
 #endif
 
-    pixman_composite_glyphs_no_mask ((pixman_op_t) in_op, &vd_src, &vd_dest, in_sx, in_sy, in_dx, in_dy, &vd_cache, in_n, vd_req);
+    pixman_composite_glyphs_no_mask ((pixman_op_t) in_op, vd_src_p, vd_dest_p, in_sx, in_sy, in_dx, in_dy, &vd_cache, in_n, vd_req);
 
-    /* ---- specification: glyph by glyph, clip box by clip box */
+    /* ---- specification: glyph by glyph, clip box by clip box; each expected call is compared with the next recorded one */
     for (i = 0; i < VD_NG; i++)
         if (i < in_n)
         {
             const glyph_t *g = (const glyph_t *) vd_req[i].glyph;
-            long gx = (long) in_dx + vd_req[i].x - g->origin_x, gy = (long) in_dy + vd_req[i].y - g->origin_y;
+            VD_LONG gx = (VD_LONG) in_dx + vd_req[i].x - g->origin_x, gy = (VD_LONG) in_dy + vd_req[i].y - g->origin_y;
             for (j = 0; j < VD_NBOX; j++)
                 if (j < nsbox)
                     vd_spec_glyph_box (g, gx, gy, &sbox[j]);
@@ -166,29 +195,6 @@ void harness (void)
     VH_CHECK ("no_mask.region_requested_once_for_whole_destination_with_source_aligned", vd_reg_calls == 1 && vd_reg_args_ok);
 #endif
     VH_CHECK ("no_mask.one_call_per_nonempty_intersection_of_glyph_box_and_clip_box", vd_ncalls == vd_nexp);
-    for (c = 0; c < VD_MAXCALL; c++)
-        if (c < vd_nexp && c < vd_ncalls)
-        {
-            const pixman_composite_info_t *in = &vd_call[c].info; const vd_expect *e = &vd_exp[c];
-            const pixman_image_t *gi = e->g->image;
-            int k = vd_call[c].id;
-            if (!vd_rect_ok (c)) ok_rect = 0;
-            if (!vd_rect_inside_clip (c)) ok_clip = 0;
-            if (!(in->mask_x == e->d.x1 - e->gx && in->mask_y == e->d.y1 - e->gy)) ok_mask = 0;
-            if (!(in->src_x == in_sx + (e->d.x1 - in_dx) && in->src_y == in_sy + (e->d.y1 - in_dy))) ok_src = 0;
-            if (!(in->op == (pixman_op_t) in_op && in->src_image == &vd_src && in->mask_image == gi && in->dest_image == &vd_dest)) ok_img = 0;
-            if (!vd_cover_true (c, 1)) ok_cover = 0;
-            if (!vd_routine_from_lookup (c)) ok_routine = 0;
-            else if (!(vd_lk[k].top == &vd_top && vd_lk[k].op == (pixman_op_t) in_op &&
-                       vd_lk[k].sf == (pixman_format_code_t) in_src_fmt && vd_lk[k].sfl == in_src_flags &&
-                       vd_lk[k].mf == gi->common.extended_format_code && vd_lk[k].mfl == (gi->common.flags | VD_COVER) &&
-                       vd_lk[k].df == (pixman_format_code_t) in_dest_fmt && vd_lk[k].dfl == in_dest_flags)) ok_lookup = 0;
-            /* flags handed to the routine: those of the images; on the glyph nothing but the (true) COVER promise may be added.
-             * (pixman_image_composite32 hands over glyph flags | COVER; the real code hands over the glyph flags without it:
-             * a weaker, still true description -- both are accepted, see the report) */
-            if (!(in->src_flags == in_src_flags && in->dest_flags == in_dest_flags &&
-                  (in->mask_flags == gi->common.flags || in->mask_flags == (gi->common.flags | VD_COVER)))) ok_flags = 0;
-        }
     VH_CHECK ("no_mask.drawn_rectangle_is_glyph_box_meet_clip_box", ok_rect);
     VH_CHECK ("no_mask.drawn_rectangle_inside_clip_box_and_not_empty", ok_clip);
     VH_CHECK ("no_mask.glyph_sample_origin_is_drawn_origin_minus_glyph_position", ok_mask);
